@@ -5,6 +5,7 @@ import (
 	"fmt"
 	"os"
 	"reflect"
+	"strings"
 	"testing"
 	"time"
 
@@ -131,7 +132,11 @@ var cookedCtx = []struct {
 func TestOptions(t *testing.T) {
 	out := newOut(t, "opts")
 	defer out.Close()
+	only := os.Getenv("VERIF_OPTS_ONLY") // substring of the object-group labels to run (a property that is about one pattern)
 	run := func(label string, body func(r *rec.Recorder)) {
+		if only != "" && !strings.Contains(label, only) {
+			return
+		}
 		r := rec.New()
 		status, detail := "ok", ""
 		func() {
